@@ -139,7 +139,7 @@ fn main() {
                 nc += cmp;
                 runs += 1;
                 cr.states.extend(st);
-                if cr.violations.len() > 6 {
+                if distinct_sigs(&cr.violations) > 6 || cr.violations.len() > 2000 {
                     break;
                 }
             }
@@ -154,7 +154,7 @@ fn main() {
             if c == 0 {
                 cr.sample = Some(json!({"shape": name, "packets": n, "permutations": total, "chunk_completes": nc}));
             }
-            cr.violations.truncate(4);
+            limit(&mut cr.violations, 4);
             cr
         }));
         // ---- all sub-multisets (multiplicity 0..2) of sessions with <= 8 packets, 3 orders
@@ -215,7 +215,7 @@ fn main() {
                     runs += 1;
                     cr.states.extend(st);
                 }
-                if cr.violations.len() > 6 {
+                if distinct_sigs(&cr.violations) > 6 || cr.violations.len() > 2000 {
                     break;
                 }
             }
@@ -230,7 +230,7 @@ fn main() {
             if c == 1 {
                 cr.sample = Some(json!({"shape": name, "packets": n, "submultisets": total, "chunk_completes": nc}));
             }
-            cr.violations.truncate(4);
+            limit(&mut cr.violations, 4);
             cr
         }));
         // ---- sampled reorderings of larger sessions (multi-transfer, carousel cycles, cenc)
@@ -305,7 +305,7 @@ fn main() {
                 cr.shape = Some(util::fnv(&s));
             }
             cr.sample = Some(json!({"session": em.json(), "histories": runs, "completes": nc}));
-            cr.violations.truncate(4);
+            limit(&mut cr.violations, 4);
             cr
         }));
         // ---- payload faults on MD5-announced objects
@@ -407,7 +407,7 @@ fn main() {
                 cr.shape = Some(util::fnv(&s));
             }
             cr.sample = Some(json!({"session": em.json(), "histories": runs, "completes_despite_faults": nc}));
-            cr.violations.truncate(4);
+            limit(&mut cr.violations, 4);
             cr
         }));
         gens
